@@ -6,6 +6,7 @@ import MenelausVerif.Model.PageHinkley
 import MenelausVerif.Model.Lifecycle
 import MenelausVerif.Props.C13
 import MenelausVerif.Props.C01
+import MenelausVerif.Props.C01Models
 import MenelausVerif.Props.C02
 import MenelausVerif.Props.C17
 import MenelausVerif.Props.C17PH
